@@ -26,7 +26,7 @@ def case(draw, tier):
     nc = len(desc['t'][0])
     tg = draw(gt.tags(nc, oriented=True, maxnames=3, names=draw(st.booleans()), empty_boundaries=True))
     return dict(mesh=desc, tags=tg, fmt=fmt, pdata=draw(st.booleans()), cdata=draw(st.booleans()),
-                encode_pd=draw(st.integers(0, 3)) == 0,
+                encode_pd=draw(st.integers(0, 3)) == 0, spare=draw(st.integers(0, 4)) == 0,
                 seed=draw(st.integers(0, 10**6)))
 
 
@@ -66,6 +66,10 @@ def body(c, ctx):
     desc = c['mesh']
     fmt = c['fmt']
     m0 = build_mesh(desc)
+    if c.get('spare') and desc['cls'].endswith('1'):
+        # trailing points that no cell uses (the parts of `a @ b` share one point array; files with spare nodes): they are data too
+        m0 = type(m0)(np.hstack([m0.p, m0.p[:, :2] + 16.0]), m0.t, **({'sort_t': False} if desc.get('sort_t') is False else {}))
+        ctx.cls('spare-trailing-points')
     m, res = resolve_tags(m0, c['tags'])
     route = 'npz' if fmt == 'npz' else ('dict' if fmt in ('dict', 'json') else 'meshio')
     sig = dict(route=route, _fmt=fmt, _mesh=desc['cls'])
@@ -88,7 +92,7 @@ def body(c, ctx):
     cls = type(m)
     with tempfile.TemporaryDirectory(prefix='vf-c17-') as td:
         # optional keyword: the tags additionally encoded in point data (first-order meshes)
-        ekw = dict(encode_point_data=True) if c.get('encode_pd') and desc['cls'].endswith('1') else {}
+        ekw = dict(encode_point_data=True) if c.get('encode_pd') and desc['cls'].endswith('1') and not c.get('spare') else {}   # (with spare points the encoder raises: loud)
         if ekw:
             ctx.cls('encode_point_data')
         if fmt == 'meshio':
@@ -100,6 +104,12 @@ def body(c, ctx):
             fn = os.path.join(td, 'mesh' + suffix)
             m.save(fn, point_data=pd, cell_data=cd, **kw)
             m2 = skfem.Mesh.load(fn, out=out)
+            # the same path written again with another mesh and read again: what is on disk now
+            mb = m.translated(tuple([0.5] * m.dim()))
+            mb.save(fn, **kw)
+            m3 = skfem.Mesh.load(fn)
+            if m3.p.shape != mb.p.shape or not np.array_equal(m3.p, mb.p):
+                ctx.fail('stale_file_content', f'{fmt}: a file overwritten with another mesh loads as the mesh written first', **sig)
         elif fmt == 'json':
             from skfem.io.json import from_file, to_file
             fn = os.path.join(td, 'mesh.json')
